@@ -406,6 +406,12 @@ func CheckDefault(pc *PathCtx) {
 				}
 			}
 		}
+		if m, isMap := src.(engine.Map); isMap && m.M == nil && !srcPtr && !tgtPtr {
+			// a map-typed method starts from FUNC's result: that is what a nil source returns
+			o.leaf("result", o.resultIs(d.Result, d.ResultType, got, T), "nil source map must return default FUNC's result unchanged")
+			pc.ProveLeaves("default", o)
+			return
+		}
 		o.Match(src, S, got, T, "result")
 		pc.ProveLeaves("default", o)
 		return
